@@ -457,6 +457,19 @@ fn evaluate_class(rep: &mut Report, rng: &mut Rng, s: &Subject, case: u64, sizes
                     let again = project::project(&v[0]);
                     if again != s.full { for d in cf::diff::diff(&s.full, &again, 4) { rep.violation(format!("C17 replay (Vec<ClassFile> visitor): rebuilt class differs from the replayed one at {}", d.signature()), json!({"class": s.name, "input_hex": hex(&s.bytes), "at": d.at, "tree": d.expected, "rebuilt": d.observed})); } }
                     else { rep.count("replays.into_builder.equal"); }
+                    // "reproduces the class": besides the projected facts, the tree itself. Compared through Debug (the derived == says NaN != NaN);
+                    // this sees what the fact model deliberately equates, e.g. a table that is present but empty (an event the reading visitor gets)
+                    if again == s.full && s.bytes.len() <= 96 * 1024 {
+                        let (a, b) = (format!("{:?}", s.tree), format!("{:?}", v[0]));
+                        if a == b { rep.count("replays.into_builder.same_tree"); }
+                        else {
+                            let at = a.bytes().zip(b.bytes()).position(|(x, y)| x != y).unwrap_or(a.len().min(b.len()));
+                            // the name of the nearest field before the first difference makes the signature (no instance data in it)
+                            let field = a[..at].rfind(": ").map(|c| { let st = a[..c].rfind(|ch: char| !(ch.is_alphanumeric() || ch == '_')).map_or(0, |i| i + 1); a[st..c].to_string() }).unwrap_or_default();
+                            let lo = at.saturating_sub(120); let ctx = |t: &str| t.get(lo..(at + 120).min(t.len())).unwrap_or("").to_string();
+                            rep.violation(format!("C17 replay (Vec<ClassFile> visitor): rebuilt tree is not the replayed one although the facts agree (first difference near field `{field}`)"), json!({"class": s.name, "input_hex": hex(&s.bytes), "tree": ctx(&a), "rebuilt": ctx(&b)}));
+                        }
+                    }
                 }
             }
         }
